@@ -478,7 +478,11 @@ type typeError struct {
 }
 
 func (err *typeError) Error() string {
-	return fmt.Sprintf("%s: want %s for the parameter %s but got %s", err.pkg, err.want, err.name, err.got.String())
+	got := "null"
+	if err.got != nil {
+		got = err.got.String()
+	}
+	return fmt.Sprintf("%s: want %s for the parameter %s but got %s", err.pkg, err.want, err.name, got)
 }
 
 type missingError struct {
